@@ -25,15 +25,17 @@ let atoms v = List.sort compare (String.split_on_char '|' v)
 let canon (es : (string * string) list) = List.map (fun (k, v) -> (k, atoms v)) es
 
 type out = { adds : bool list; result : (string * string) list option; late_add : bool; late_write : bool;
-             nspills : int; templates : string list; calls : int }
+             nspills : int; templates : string list; calls : int; spills_after_add : int list }
 
 let run_impl ~(ops : (string * string) list) ~maxmem ~pool ~use_write ~fail_at ~tmp : child_end =
   in_child (fun () ->
     c_mkstemp_reset ();
     let mc = Mg.c_merge_clos_new 1 fail_at in
-    let p = if pool > 0 then Wr.c_pool_init pool else 0n in
+    (* pool < 0: a pool object with zero threads *)
+    let p = if pool > 0 then Wr.c_pool_init pool else if pool < 0 then Wr.c_pool_init 0 else 0n in
     let s = c_sorter_init maxmem tmp mc p in
-    let adds = List.map (fun (k, v) -> c_sorter_add s k v) ops in
+    let spills = ref [] in
+    let adds = List.map (fun (k, v) -> let r = c_sorter_add s k v in spills := c_mkstemp_count () :: !spills; r) ops in
     let result, late_add, late_write =
       if use_write then begin
         let path = Filename.concat tmp (Printf.sprintf "so_out_%d.mtbl" (Unix.getpid ())) in
@@ -74,9 +76,9 @@ let run_impl ~(ops : (string * string) list) ~maxmem ~pool ~use_write ~fail_at ~
     let n = c_mkstemp_count () in
     let templates = List.init (min n 256) c_mkstemp_template in
     c_sorter_destroy s;
-    if pool > 0 then Wr.c_pool_destroy p;
+    if pool <> 0 then Wr.c_pool_destroy p;
     Mg.c_merge_clos_free mc;
-    "DONE" ^ Marshal.to_string { adds; result; late_add; late_write; nspills = n; templates; calls = 0 } [])
+    "DONE" ^ Marshal.to_string { adds; result; late_add; late_write; nspills = n; templates; calls = 0; spills_after_add = List.rev !spills } [])
 
 let check acc ~klass ~(ops : (string * string) list) ~maxmem ~pool ~use_write ~fail_at =
   let tmp = Filename.concat (Wr.tmpdir ()) "sorter_spill" in
@@ -139,8 +141,19 @@ let check acc ~klass ~(ops : (string * string) list) ~maxmem ~pool ~use_write ~f
         | None -> fail acc ~kind:"spec_violation" ~what:"[C06] sorter produced no output (iterator NULL / write failed)" (casej ()));
        if o.late_add then fail acc ~kind:"spec_violation" ~what:"[C06] mtbl_sorter_add accepted after iteration had begun" (casej ());
        if o.late_write then fail acc ~kind:"spec_violation" ~what:"[C06] mtbl_sorter_write accepted after iteration had begun" (casej ());
-       (* spill bound: every buffered prefix stays below the limit between adds - via the model's chunk boundaries *)
-       ()
+       (* spill bound (specification): with no pool a spill is synchronous; after every add the entries buffered
+          since the last spill - 8-byte header + key + value each, plus one pointer each - are below max_memory *)
+       if pool = 0 then begin
+         let hdr = int_of_n sORTER_ENTRY_HEADER and ptr = int_of_n sORTER_PTR_BYTES in
+         let buffered = ref 0 and last = ref 0 in
+         List.iteri (fun i ((k, v), cnt) ->
+           if cnt > !last then (last := cnt; buffered := 0)
+           else begin
+             buffered := !buffered + hdr + String.length k + String.length v + ptr;
+             if !buffered >= maxmem then
+               fail acc ~kind:"spec_violation" ~what:(Printf.sprintf "[C06] after add #%d the buffered entries (%d bytes) have reached max_memory (%d) and no spill has happened" (i + 1) !buffered maxmem) (casej ())
+           end) (List.combine ops o.spills_after_add)
+       end
      end else begin
        (* failing merge: outcome classes only (pool > 0 defers the failure) *)
        if pool = 0 then begin
@@ -171,6 +184,12 @@ let run ~tier ~seed ~only acc =
     ("dups_varied_len", [ ("ant", "ab"); ("cat", "x"); ("ant", "cdef"); ("cat", "yyyy"); ("ant", "g") ], 100000, 0);
     ("chunk_boundary_exact", List.init 24 (fun i -> (Printf.sprintf "k%02d" (i mod 20), Printf.sprintf "v%02d" i)), 8 * 22, 2);
     ("reverse", List.init 30 (fun i -> (Printf.sprintf "k%02d" (29 - i), "v")), 100, 3);
+    (* a pool object with zero worker threads *)
+    ("pool_of_zero_threads", List.init 12 (fun i -> (Printf.sprintf "k%02d" (i mod 7), Printf.sprintf "v%02d" i)), 60, -1);
+    ("pool_of_zero_threads", [ ("a", "1") ], 100000, -1);
+    (* fixed 32-byte records against a power-of-two limit: the running total lands exactly on the limit *)
+    ("limit_hit_exactly", List.init 20 (fun i -> (Printf.sprintf "k%03d" i, String.make 12 'v')), 128, 0);
+    ("limit_hit_exactly", List.init 40 (fun i -> (Printf.sprintf "k%03d" (i mod 9), String.make 12 'v')), 256, 0);
   ] in
   List.iter (fun (klass, ops, maxmem, pool) ->
     List.iter (fun use_write -> if want () then check acc ~klass ~ops ~maxmem ~pool ~use_write ~fail_at:0; incr idx) [ false; true ]) directed;
@@ -192,7 +211,7 @@ let run ~tier ~seed ~only acc =
           | 2 -> max 1 (total / (rrange st 2 6) + rrange st (-1) 1)
           | 3 -> 1000000
           | _ -> rrange st 20 (max 21 total)) in
-      let pool = (match rint st 3 with 0 -> 0 | _ -> rrange st 0 8) in
+      let pool = (match rint st 3 with 0 -> 0 | _ -> if rint st 12 = 0 then -1 else rrange st 0 8) in
       let fail_at = if rint st 10 = 0 then rrange st 1 5 else 0 in
       check acc ~klass:(match mode with 0 -> "random_dups" | 1 -> "sorted" | 2 -> "reverse" | _ -> "few_keys") ~ops ~maxmem ~pool ~use_write:(rbool st) ~fail_at
     end;
